@@ -28,6 +28,27 @@ CHECKS = {
  'C08': dict(
     text='One check / one ping is executed from an arbitrary in-memory context (counter, times, interval symbolic at full width), which is the inductive step for histories of any length: counter and last-contact rules per error class, final announcements, persist+commit before return; the three context keys are written only by Context::persist from one context, and persist/load are inverse at microsecond precision for every context, so with the Storage contract (atomic commit) a crash at any instant leaves the last commit.',
     note=SM_NOTE + ' Storage implementations\' atomicity is assumed (trait contract).', design='4/C08', technique=PATHS),
+ 'C04': dict(
+    text='All paths of the tail of perform_update_check (after the attempt loop) are enumerated with the parse result, every response app\'s id/status/manifest, plan creation, the policy decision, each installer result, each report delivery and the reboot answer symbolic, for the stated app-set/response shapes: the announced states are exactly the ones the outcome calls for (iff table), the result lists the response apps in order with their own action; loop-error paths announce ErrorCheckingForUpdate once; run() announces Idle after each check with WaitingForReboot iff a reboot is pending. The iff direction and the per-app alignment hold on every path, which tests sample.',
+    note=SM_NOTE, design='4/C04', technique=PATHS),
+ 'C05': dict(
+    text='run() and wait_for_reboot() are executed with the real select!/Fuse/join code under all arm orders and pending/ready choices (bounded): a check starts only right after a positive update_check_allowed of the same iteration with exactly its parameters; invalid app sets end the machine at once; perform_reboot only with a pending reboot and a positive most recent answer; the installer only after update_can_start == Ok on the created plan; all builders of a check use the policy\'s parameters; App::valid decided for all ids/versions.',
+    note=SM_NOTE, design='4/C05', technique=PATHS),
+ 'C10': dict(
+    text='On every path of the tail of perform_update_check (same symbolic dimensions as C04) the sequence of report requests, the apps and events in each (type, result, error code, previous/next version), session id and fresh request id are exactly those the outcome calls for, lost-event metrics are counted exactly, reports are never retried, and delivery outcomes change neither states nor result (paths that differ only in delivery are compared).',
+    note=SM_NOTE, design='4/C10', technique=PATHS),
+ 'C11': dict(
+    text='Every path of run()/wait_for_reboot() with up to 1 (quick) / 2 (thorough) control requests arriving at any select point (outer wait, during the check, reboot wait), timers pending or firing in any order: each request taken is answered exactly once before the next suspension, with Started/Throttled per the policy decision (asked with the request\'s options) or AlreadyRunning, and an on-demand request upgrades the reboot question and triggers the reboot when allowed.',
+    note=SM_NOTE + ' Outside: wake-up of a sleeping machine, dropped handles, StateMachineGone (channel internals).', design='4/C11', technique=PATHS),
+ 'C12': dict(
+    text='Every path of run()/wait_for_reboot() with both timers of a wait pending/firing in all orders: the policy timing is asked, stored and announced before every wait, timers are armed with exactly its values, a scheduled check (and a ping) begins only after all timers of that wait fired (the real future::join/Fuse code is executed), the reboot question is re-asked only after its 30-minute timer or an on-demand request.',
+    note=SM_NOTE, design='4/C12', technique=PATHS),
+ 'C14': dict(
+    text='Panic audit by exploration: every feasible path of the check, ping, report, exchange, persist/load and helper functions is executed from arbitrary stored values, clock values, statuses and header bytes with overflow checks on; any reachable panic (overflow, unwrap, index, Vec::remove, time arithmetic) is a violation. Storage independence: with every storage write/commit allowed to fail, the set of observable (events, requests, installer calls) sequences equals the one with a working storage. Context::load total for all stored integers.',
+    note=SM_NOTE + ' Outside: totality of serde_json/http on arbitrary bytes, hangs; installer contract (one result per offered app).', design='4/C14', technique=PATHS),
+ 'C18': dict(
+    text='report_waited_for_reboot_duration for all clock values (exact duration iff computable, else Err and no metric); record_update_first_seen_time and report_attempts_to_successful_install for all stored values and storage failures; finish time and system-app target version written and committed before reboot_needed on every install-ok path, nothing after a failure; run(): report iff finish time stored and target version == running version, keys removed+committed once after success.',
+    note=SM_NOTE, design='4/C18', technique=PATHS),
  'C19': dict(
     text='Every path of the real MIR of both time conversions, the truncation helper, the StorageExt time wrappers and the two-clock algebra (destructure, complete_with, checked_to_*, From, Add/Sub, is_after_or_eq_any) is executed symbolically with full-width integers; each clause of the property is an unsat query over all i64 microsecond values / all (sec: i64, nsec < 1e9) times / all durations. Within the stated trusted base this covers every input, which no finite test list does.',
     note='Trusted: the std::time model (Timespec = (i64 sec, u32 nsec<1e9); duration_since/checked_add/checked_sub/Add/Sub/Duration::{from_*,as_*} per std docs), the MIR text emitted by rustc nightly for the current tree, z3/cvc5. Outside: platform SystemTime ranges other than i64 seconds; Display impls.',
